@@ -180,6 +180,7 @@ pub struct Config {
     pub validator: ValKind,
     pub clients: usize,
     pub start_ms: u64,
+    pub metrics: bool,
 }
 
 pub(crate) fn bo<F: std::future::Future>(f: F) -> F::Output {
@@ -310,6 +311,8 @@ pub struct World {
     pub hung: Vec<usize>,
     /// typed result of the most recently completed public call
     pub last_out: Value,
+    /// an actor got stuck inside the code under test: the instance is abandoned
+    pub aborted: bool,
 }
 
 fn key_pair(k: u64) -> Value {
@@ -333,7 +336,7 @@ impl World {
                         .set_callback(HCallback)
                         .set_buffer_size(cfgc.buf_cap)
                         .set_buffer_items(cfgc.buffer_items)
-                        .set_metrics(true)
+                        .set_metrics(cfgc.metrics)
                         .set_ignore_internal_cost(cfgc.ignore_internal)
                         .set_cleanup_duration(Duration::from_secs(3600))
                         .finalize()
@@ -350,7 +353,7 @@ impl World {
                         .set_callback(HCallback)
                         .set_buffer_size(cfgc.buf_cap)
                         .set_buffer_items(cfgc.buffer_items)
-                        .set_metrics(true)
+                        .set_metrics(cfgc.metrics)
                         .set_ignore_internal_cost(cfgc.ignore_internal)
                         .set_cleanup_duration(Duration::from_secs(3600))
                         .finalize(|_f| panic!("processor must be parked, not spawned"))
@@ -411,17 +414,21 @@ impl World {
             events: 0,
             hung: Vec::new(),
             last_out: Value::Null,
+            aborted: false,
         };
         let hdr = json!({"ev":"Init","flavor":w.cfg.flavor,"bufcap":w.cfg.buf_cap,"max":w.cfg.max_cost,
             "itemsize":w.item_size,"coster":match w.cfg.coster {CosterKind::Const2=>"const2",CosterKind::Mod3=>"mod3",CosterKind::Zero=>"zero"},
             "validator":match w.cfg.validator {ValKind::Always=>"always",ValKind::Sum5=>"sum5",ValKind::Asym3=>"asym3",ValKind::Never=>"never"},
-            "now":w.now_ms,"clients":w.cfg.clients,"nc":w.cfg.num_counters,"bi":w.cfg.buffer_items,
+            "now":w.now_ms,"clients":w.cfg.clients,"nc":w.cfg.num_counters,"bi":w.cfg.buffer_items,"metrics":w.cfg.metrics,
             "post":std::panic::catch_unwind(std::panic::AssertUnwindSafe(|| post(&w.cache))).unwrap_or(json!({"panic":true}))});
         w.t.push(hdr);
         w
     }
 
     fn emit(&mut self, mut ev: Value) {
+        if self.aborted {
+            return;
+        }
         let cbs = drain_callbacks();
         ev["cbs"] = json!(cbs);
         if ev.get("out").is_none() {
@@ -430,12 +437,20 @@ impl World {
         if ev.get("racy").is_none() {
             ev["racy"] = json!(false);
         }
+        // with metrics disabled every counter reads 0: nothing to compare
+        ev["nomet"] = json!(!self.cfg.metrics);
         // a panic of the code under test while its state is read (e.g. an estimator that cannot be
         // queried) is data: it becomes an event the specification has no step for
         match std::panic::catch_unwind(std::panic::AssertUnwindSafe(|| post(&self.cache))) {
             Ok(p) => ev["post"] = p,
             Err(e) => {
-                ev = json!({"ev":"Panic","during":ev["ev"],"msg":crate::util::panic_msg(e),"out":{"t":"pending"},"racy":false,"cbs":[]});
+                let msg = crate::util::panic_msg(e);
+                if msg.starts_with("verif:") {
+                    // the observer could not get a lock the code under test never releases: the instance ends here
+                    self.stalled(&format!("observer: {}", msg));
+                    return;
+                }
+                ev = json!({"ev":"Panic","during":ev["ev"],"msg":msg,"out":{"t":"pending"},"racy":false,"nomet":true,"cbs":[]});
             }
         }
         ev["now"] = json!(self.now_ms);
@@ -458,14 +473,36 @@ impl World {
     pub fn pol_exited(&self) -> bool {
         self.pol_exited
     }
-    pub fn snapshot(&self) -> Snapshot<V> {
-        self.cache.snapshot()
+    pub fn snapshot(&mut self) -> Snapshot<V> {
+        match std::panic::catch_unwind(std::panic::AssertUnwindSafe(|| self.cache.snapshot())) {
+            Ok(s) => s,
+            Err(e) => {
+                // the code under test holds a lock the observer needs and never releases it
+                if !self.aborted {
+                    let msg = crate::util::panic_msg(e);
+                    self.stalled(&format!("observer: {}", msg));
+                }
+                Snapshot { entries: vec![], buckets: vec![], costs: vec![], used: 0, max_cost: 0, buf_len: 0, clear_len: 0,
+                           stop_len: 0, ring_len: 0, pol_queue_len: 0, pol_stop_len: 0, closed: false, pol_closed: false, len: 0, tiny_w: 0 }
+            }
+        }
     }
 
     // ------------------------------------------------------------------ clients
 
     /// start command `cmd` on idle client c, or continue its in-flight command by one step
+    /// an actor did not come back from a granted step: it is blocked inside the code under test at a place that
+    /// is not a yield point.  Recorded as an event (the specification has no step for it); the instance ends here.
+    fn stalled(&mut self, who: &str) {
+        self.aborted = true;
+        self.t.push(json!({"ev":"Stalled","who":who,"secs":sched::STALL_SECS,"out":{"t":"pending"},"racy":false,"nomet":true,"cbs":[],"now":self.now_ms}));
+        self.events += 1;
+    }
+
     pub fn step_client(&mut self, c: usize, cmd: Option<Cmd>) {
+        if self.aborted {
+            return;
+        }
         if self.clients[c].cur.is_none() {
             let cmd = match cmd {
                 Some(c) => c,
@@ -481,10 +518,16 @@ impl World {
             self.clients[c].steps = 0;
             let cache = self.cache.clone();
             let job = make_job(cache, cmd, v);
-            self.clients[c].actor.submit(job);
+            if !self.clients[c].actor.submit(job) {
+                self.stalled(&format!("client {}", c + 1));
+                return;
+            }
         } else {
             // decide BEFORE the grant whether the blocking call it may enter will block
             let pre = self.snapshot();
+            if self.aborted {
+                return;
+            }
             let is_async = self.cfg.flavor == "async";
             let pass = match self.clients[c].actor.state() {
                 St::Parked("block:cls_stop") => self.proc_exited || (is_async && pre.stop_len == 0),
@@ -494,7 +537,10 @@ impl World {
                 St::Parked(_) => false,
                 _ => return, // blocked: cannot be stepped
             };
-            self.clients[c].actor.grant();
+            if !self.clients[c].actor.grant() {
+                self.stalled(&format!("client {}", c + 1));
+                return;
+            }
             // entering a blocking call that will not block: wait for it to come out
             if let St::Blocked(kind) = self.clients[c].actor.state() {
                 if pass {
@@ -666,7 +712,7 @@ impl World {
     /// one step of the cache processor: continue a handler parked at an internal yield, or start
     /// a loop iteration with select! arm `b`
     pub fn step_proc(&mut self, b: Branch) {
-        if self.proc_exited {
+        if self.proc_exited || self.aborted {
             return;
         }
         verif::drain_events();
@@ -675,19 +721,25 @@ impl World {
         let from: &'static str;
         match self.proc_actor.state() {
             St::Parked(_) => {
-                self.proc_actor.grant();
+                if !self.proc_actor.grant() {
+                    self.stalled("cache processor");
+                    return;
+                }
                 from = self.proc_actor.last_from();
             }
             St::Idle => {
                 let p = self.proc_.clone();
-                self.proc_actor.submit(Box::new(move || {
+                if !self.proc_actor.submit(Box::new(move || {
                     let mut g = p.lock();
                     let r = match g.as_mut() {
                         Some(pr) => pr.step(b),
                         None => Stepped::Exited,
                     };
                     json!(format!("{:?}", r))
-                }));
+                })) {
+                    self.stalled("cache processor");
+                    return;
+                }
                 from = "start";
             }
             _ => return,
@@ -803,21 +855,24 @@ impl World {
     }
 
     pub fn step_pol(&mut self, b: Branch) {
-        if self.pol_exited {
+        if self.pol_exited || self.aborted {
             return;
         }
         let p = self.pol.clone();
         if self.pol_actor.state() != St::Idle {
             return;
         }
-        self.pol_actor.submit(Box::new(move || {
+        if !self.pol_actor.submit(Box::new(move || {
             let mut g = p.lock();
             let r = match g.as_mut() {
                 Some(pr) => pr.step(b),
                 None => Stepped::Exited,
             };
             json!(format!("{:?}", r))
-        }));
+        })) {
+            self.stalled("policy worker");
+            return;
+        }
         let res = self.pol_actor.take_result().and_then(|v| v.as_str().map(|s| s.to_string())).unwrap_or_default();
         let name = match (b, res.as_str()) {
             (_, "NotReady") => "Skip",
@@ -855,6 +910,9 @@ impl World {
 
     /// popularity change (abstract in Cache.tla): record n accesses of harness key k in the TinyLFU
     pub fn bump(&mut self, k: u64, n: usize) {
+        if self.aborted {
+            return;
+        }
         let (i, _) = KEYTAB[k as usize % KEYTAB.len()];
         let r = std::panic::catch_unwind(std::panic::AssertUnwindSafe(|| match &self.cache {
             AnyCache::Sync(c) => verif::bump_sync(c, i, n),
@@ -867,6 +925,9 @@ impl World {
     }
 
     pub fn advance(&mut self, dt_ms: u64) {
+        if self.aborted {
+            return;
+        }
         self.now_ms += dt_ms;
         verif::clock::set_virtual(self.now_ms * MS);
         self.emit(json!({"ev":"Advance","dt":dt_ms}));
@@ -874,7 +935,13 @@ impl World {
 
     /// run everything that can still run; report clients that stay blocked for ever
     pub fn drain(&mut self) {
+        if self.aborted {
+            return;
+        }
         for _round in 0..2000 {
+            if self.aborted {
+                return;
+            }
             let mut progressed = false;
             for c in 0..self.clients.len() {
                 if self.clients[c].cur.is_some() {
@@ -1067,6 +1134,7 @@ pub struct Profile {
     pub p_tick: f64,
     pub p_bump: f64,
     pub p_pol: f64,
+    pub metrics_off_sometimes: bool,
     pub buffer_items: Vec<usize>,
     pub num_counters: Vec<usize>,
     pub max_cost: (i64, i64),
@@ -1141,6 +1209,7 @@ pub fn random_walk(rng: &mut StdRng, p: &Profile, t: Trace) -> (Trace, usize, Ve
         validator: p.validator,
         clients: p.clients,
         start_ms: 100_000 + rng.gen_range(0..1000),
+        metrics: !p.metrics_off_sometimes || rng.gen_bool(0.6),
     };
     let mut w = World::new(cfg, t);
     for _ in 0..p.steps {
@@ -1234,7 +1303,10 @@ pub fn random_walk(rng: &mut StdRng, p: &Profile, t: Trace) -> (Trace, usize, Ve
         }
     }
     w.drain();
-    let hung = w.hung.clone();
+    let mut hung = w.hung.clone();
+    if w.aborted {
+        hung.push(usize::MAX); // marker: an actor got stuck in this instance
+    }
     let (t, ev) = w.finish();
     (t, ev, hung)
 }
@@ -1251,6 +1323,7 @@ pub fn profile(name: &str, flavor: &'static str) -> Profile {
         p_tick: 0.0,
         p_bump: 0.08,
         p_pol: 0.3,
+        metrics_off_sometimes: false,
         buffer_items: vec![64],
         num_counters: vec![1000],
         max_cost: (4, 12),
@@ -1328,6 +1401,7 @@ pub fn profile(name: &str, flavor: &'static str) -> Profile {
             advances: vec![400, 1000, 1600],
             buffer_items: vec![0, 1, 2, 64],
             num_counters: (1..=70).collect(),
+            metrics_off_sometimes: true,
             max_cost: (1, 8),
             buf_cap: (1, 2),
             ..base
@@ -1521,6 +1595,7 @@ fn run_schedule(sched: &Value, flavor: &'static str, t: Trace) -> (Trace, usize,
         validator: ValKind::Always,
         clients: 2,
         start_ms: 100_000,
+        metrics: true,
     };
     let unit = 250u64; // SIM_Cache: SecUnits = 4
     let mut w = World::new(cfg, t);
@@ -1578,7 +1653,7 @@ fn run_schedule(sched: &Value, flavor: &'static str, t: Trace) -> (Trace, usize,
         }
     }
     w.drain();
-    let hung = w.hung.len();
+    let hung = if w.aborted { usize::MAX } else { w.hung.len() };
     let (t, _) = w.finish();
     (t, done, skipped, hung)
 }
@@ -1598,6 +1673,7 @@ pub fn run(o: &Opts) -> i32 {
         std::panic::set_hook(Box::new(|_| {}));
         let mut t = Trace::create(&out);
         let (mut n, mut done, mut skipped, mut hung) = (0, 0, 0, 0);
+        let mut stalls = 0;
         for line in std::fs::read_to_string(sf).unwrap_or_default().lines() {
             if let Ok(v) = serde_json::from_str::<Value>(line) {
                 let (t2, d, s, h) = run_schedule(&v, flavor, t);
@@ -1605,7 +1681,14 @@ pub fn run(o: &Opts) -> i32 {
                 n += 1;
                 done += d;
                 skipped += s;
-                hung += h;
+                if h == usize::MAX {
+                    stalls += 1;
+                    if stalls >= 3 {
+                        break;
+                    }
+                } else {
+                    hung += h;
+                }
             }
         }
         let lines = t.finish();
@@ -1641,6 +1724,7 @@ pub fn run(o: &Opts) -> i32 {
     }
     let mut events = 0;
     let mut hung_total = 0;
+    let mut stalls = 0;
     let mut stats: HashMap<String, u64> = HashMap::new();
     for j in 0..n {
         let mut p = p.clone();
@@ -1652,6 +1736,13 @@ pub fn run(o: &Opts) -> i32 {
         t = t2;
         events += ev;
         hung_total += hung.len();
+        if hung.contains(&usize::MAX) {
+            stalls += 1;
+            if stalls >= 3 {
+                // every further instance would cost another stall timeout: three recorded cases are enough
+                break;
+            }
+        }
     }
     let lines = t.finish();
     // event histogram
